@@ -1819,6 +1819,9 @@ func effectiveOptLevel(conf *Config) optlevel.Level {
 }
 
 func llvmPassPipeline(level optlevel.Level) string {
+	if s := verifPipeline(level); s != "" {
+		return s
+	}
 	return "default<" + level.Name() + ">"
 }
 
